@@ -20,6 +20,9 @@ def sim_plan_st(draw, tier, ctx=None, want_absent_arms=False, max_bandits=3):
     nb = draw(st.integers(1, max_bandits))
     bandits = []
     same_np = draw(st.sampled_from([None, None, "Radius", "KNearest", "LSHNearest"]))   # several neighbourhood bandits, other metrics
+    # related metrics in one simulation (one is a function of the other: anything derived from the shared distance
+    # cache instead of computed shows as a rounding difference at the radius)
+    related = contextual_data and nb > 1 and draw(st.integers(0, 3)) == 0
     for i in range(nb):
         nps = gen.ALL_NP if contextual_data else [None]
         lps = gen.ALL_LP if contextual_data else list(ops.CONTEXT_FREE)
@@ -36,6 +39,12 @@ def sim_plan_st(draw, tier, ctx=None, want_absent_arms=False, max_bandits=3):
             break
         else:
             cfg["lp"] = ["UCB1", {"alpha": 1}]
+        if related:
+            if not (cfg["np"] and cfg["np"][0] in ("Radius", "KNearest")):
+                cfg["np"] = draw(gen.np_st([draw(st.sampled_from(["Radius", "Radius", "KNearest"]))], arms, True, False,
+                                           gen.EXACT_METRICS))
+            cfg["np"][1]["metric"] = draw(st.sampled_from(["euclidean", "sqeuclidean", "minkowski", "euclidean",
+                                                           "sqeuclidean"]))
         if cfg["np"] and cfg["np"][0] in ("LSHNearest", "Radius", "KNearest") and draw(st.booleans()):
             # the simulator re-implements these policies: give half of them a deterministic learning policy, whose
             # reported expectations are compared bit for bit
@@ -59,8 +68,16 @@ def sim_plan_st(draw, tier, ctx=None, want_absent_arms=False, max_bandits=3):
             min_train = max(min_train, c["np"][1].get("n_clusters", 2))
         thompson = thompson or c["lp"][0] == "ThompsonSampling"
         popularity = popularity or c["lp"][0] == "Popularity"
+    binarized = False
+    if thompson and not popularity and draw(st.booleans()):
+        # Thompson bandits with a binarizer: the simulator's neighbourhood re-implementations keep the raw rewards for
+        # their statistics next to the converted ones
+        binarized = True
+        for b in bandits:
+            if b["config"]["lp"][0] == "ThompsonSampling":
+                b["config"]["lp"] = ["ThompsonSampling", {"binarizer": draw(gen.binarizer_st(arms))}]
     # "D": one-decimal rewards, whose sums depend on the order of summation in the last bit
-    fam = "B" if thompson else (draw(st.sampled_from(["Epos", "D"])) if popularity else
+    fam = draw(st.sampled_from(["S", "Sint"])) if binarized else "B" if thompson else (draw(st.sampled_from(["Epos", "D"])) if popularity else
                                 draw(st.sampled_from(["E", "Eint", "T", "D", "D"])))
     pool = arms
     if want_absent_arms and len(arms) > 2 and draw(st.booleans()):
@@ -127,7 +144,8 @@ def sim_plan_st(draw, tier, ctx=None, want_absent_arms=False, max_bandits=3):
     return {"scaler": scaler, "arms": arms, "bandits": bandits, "decisions": decisions, "rewards": rewards, "contexts": contexts,
             "test_size": test_size, "n_test": n_test, "exact_count": exact_count, "is_ordered": draw(st.booleans()), "batch_size": batch_size,
             "is_quick": draw(st.booleans()), "seed": draw(st.integers(0, 2 ** 16)),
-            "data_container": draw(st.sampled_from(["list", "ndarray"]))}
+            "binarized": binarized,
+            "data_container": draw(st.sampled_from(["list", "ndarray", "list", "ndarray", "dataframe", "fortran"]))}
 
 
 def build_bandits(plan):
@@ -151,6 +169,13 @@ def run_simulator(plan, bandits):
     if plan.get("data_container") == "ndarray":
         dec, rew = np.asarray(dec), np.asarray(rew)
         cx = np.asarray(cx) if cx is not None else None
+    elif plan.get("data_container") == "dataframe":
+        import pandas as pd
+        dec, rew = pd.Series(dec), pd.Series(rew)
+        cx = pd.DataFrame(cx) if cx is not None else None
+    elif plan.get("data_container") == "fortran":
+        dec, rew = np.asarray(dec), np.asarray(rew)
+        cx = np.asfortranarray(np.asarray(cx)) if cx is not None else None
     try:
         sim = Simulator(bandits=list(bandits), decisions=dec, rewards=rew, contexts=cx, scaler=make_scaler(plan),
                         test_size=plan["test_size"], is_ordered=plan["is_ordered"], batch_size=plan["batch_size"],
